@@ -911,6 +911,7 @@ Section NoStopRound.
   Variable P : params.
   Hypothesis HP : params_ok P.
   Variable pay : Z -> Z.
+  Variable fetch : gstate -> Z -> option cqc.
   Hypothesis Hfirst : 0 <= p_first P.
   Notation hon := (honestb P).
   Notation cfg := (pcfg P).
@@ -984,7 +985,7 @@ Section NoStopRound.
       split; [exact HR'|]. split; [exact Hup'|].
       intros m' Hin'. rewrite absorb_soup in Hin'. apply in_app_or in Hin'. destruct Hin' as [Hin'|Hin']; [auto|].
       apply ProtocolRefinesInv.in_sends_of in Hin'. destruct Hin' as (x & Hx & ->). cbn [m_msg].
-      destruct (round_cert_bound P HP pay s0 _ k B Hr0 HR' HB Hk (Hup' k Hk)) as (Hvb & _).
+      destruct (round_cert_bound P HP pay fetch s0 _ k B Hr0 HR' HB Hk (Hup' k Hk)) as (Hvb & _).
       unfold hview in Hvb. rewrite Hnode in Hvb.
       destruct i as [m| |nn h].
       + destruct Hi as (idx & Hidx & Hm).
@@ -1014,7 +1015,7 @@ Section NoStopRound.
       pose proof (just_view_bound P HP s0 j B Hr0 (preach_notify_ok P t Hr k j Hn) (fi_notify _ _ _ HF k j Hk Hn) HB). lia.
   Qed.
 
-  Lemma NSI_round : NSI s0 -> NSI (round_body P pay s0).
+  Lemma NSI_round : NSI s0 -> NSI (round_body P pay fetch s0).
   Proof.
     intros H0. eapply (rstar_inv P (length (g_soup s0)) s0 NSI).
     - intros t t'. apply NSI_prim.
@@ -1030,6 +1031,7 @@ Section NoStopRounds.
   Variable P : params.
   Hypothesis HP : params_ok P.
   Variable pay : Z -> Z.
+  Variable fetch : gstate -> Z -> option cqc.
   Hypothesis Hfirst : 0 <= p_first P.
   Notation hon := (honestb P).
   Notation cfg := (pcfg P).
@@ -1067,7 +1069,7 @@ Section NoStopRounds.
     (forall k, hon k = true -> dview s k <= B) ->
     (forall m, In m (g_soup s) -> msg_view (m_msg m) <= Bs) ->
     p_first P + B + 2 < U64 -> Bs + 1 < U64 -> B + 1 <= Bs -> 0 <= B ->
-    let s1 := sync_round P pay s in
+    let s1 := sync_round P pay fetch s in
     (forall k, hon k = true -> up s1 k) /\
     (forall k, hon k = true -> dview s1 k <= B + 1) /\
     (forall m, In m (g_soup s1) -> msg_view (m_msg m) <= Bs).
@@ -1080,12 +1082,12 @@ Section NoStopRounds.
     { split; [apply RInv_start; assumption|]. split.
       - intros k Hk. apply (revive_all_facts P HP s k Hr Hk).
       - intros m Hin. destruct (revive_soup s Hr m Hin) as [H|H]; [auto|]. lia. }
-    pose proof (NSI_round P HP pay Hfirst s0 Hr0 B Bs HB0 Hh1 Hh2 Hle H0) as (HR1 & Hup1 & Hsb1).
-    change (round_body P pay s0) with s1 in *.
+    pose proof (NSI_round P HP pay fetch Hfirst s0 Hr0 B Bs HB0 Hh1 Hh2 Hle H0) as (HR1 & Hup1 & Hsb1).
+    change (round_body P pay fetch s0) with s1 in *.
     split; [exact Hup1|]. split; [|exact Hsb1].
     intros k Hk. assert (Hr1 : preach P s1) by (apply sync_round_reach; exact Hr).
     rewrite (up_dview P HP s1 k Hr1 Hk (Hup1 k Hk)).
-    destruct (round_cert_bound P HP pay s0 s1 k B Hr0 HR1 HB0 Hk (Hup1 k Hk)) as (Hb & _). exact Hb.
+    destruct (round_cert_bound P HP pay fetch s0 s1 k B Hr0 HR1 HB0 Hk (Hup1 k Hk)) as (Hb & _). exact Hb.
   Qed.
 End NoStopRounds.
 
@@ -1093,6 +1095,7 @@ Section NoStopIter.
   Variable P : params.
   Hypothesis HP : params_ok P.
   Variable pay : Z -> Z.
+  Variable fetch : gstate -> Z -> option cqc.
   Hypothesis Hfirst : 0 <= p_first P.
   Notation hon := (honestb P).
 
@@ -1101,16 +1104,16 @@ Section NoStopIter.
     (forall k, hon k = true -> dview s k <= B) ->
     (forall m, In m (g_soup s) -> msg_view (m_msg m) <= Bs) ->
     p_first P + B + Z.of_nat R + 1 < U64 -> Bs + Z.of_nat R < U64 -> B + 1 <= Bs -> 0 <= B ->
-    forall r, (1 <= r <= R)%nat -> forall k, hon k = true -> up (sync_rounds P pay r s) k.
+    forall r, (1 <= r <= R)%nat -> forall k, hon k = true -> up (sync_rounds P pay fetch r s) k.
   Proof.
     induction R as [|R IH]; intros s B Bs Hr HB Hsb Hh1 Hh2 Hle Hnn r Hrr k Hk; [lia|].
-    destruct (round_no_stop P HP pay Hfirst s B Bs Hr HB Hsb ltac:(lia) ltac:(lia) Hle Hnn) as (Hup & HB1 & Hsb1).
+    destruct (round_no_stop P HP pay fetch Hfirst s B Bs Hr HB Hsb ltac:(lia) ltac:(lia) Hle Hnn) as (Hup & HB1 & Hsb1).
     destruct r as [|r]; [lia|]. cbn [sync_rounds]. destruct r as [|r].
     - cbn [sync_rounds]. apply Hup. exact Hk.
-    - assert (Hr1 : preach P (sync_round P pay s)) by (apply sync_round_reach; exact Hr).
-      assert (Hsb1' : forall m, In m (g_soup (sync_round P pay s)) -> msg_view (m_msg m) <= Bs + 1)
+    - assert (Hr1 : preach P (sync_round P pay fetch s)) by (apply sync_round_reach; exact Hr).
+      assert (Hsb1' : forall m, In m (g_soup (sync_round P pay fetch s)) -> msg_view (m_msg m) <= Bs + 1)
         by (intros m Hin; specialize (Hsb1 m Hin); lia).
-      exact (IH (sync_round P pay s) (B + 1) (Bs + 1) Hr1 HB1 Hsb1' ltac:(lia) ltac:(lia) ltac:(lia) ltac:(lia)
+      exact (IH (sync_round P pay fetch s) (B + 1) (Bs + 1) Hr1 HB1 Hsb1' ltac:(lia) ltac:(lia) ltac:(lia) ltac:(lia)
                 (S r) ltac:(lia) k Hk).
   Qed.
 End NoStopIter.
